@@ -1006,8 +1006,12 @@ class icmpv6 (packet_base):
       self.next = raw[self.MIN_LEN:]
       return
 
-    offset,self.next = cls.unpack_new(raw, offset=self.MIN_LEN,
-        buf_len=buf_len,prev=self)
+    try:
+      offset,self.next = cls.unpack_new(raw, offset=self.MIN_LEN,
+          buf_len=buf_len,prev=self)
+    except Exception as e:
+      self.msg('(icmpv6 parse) warning malformed %s: %s' % (cls.__name__, e))
+      self.next = raw[self.MIN_LEN:]
 
 
   def hdr (self, payload):
